@@ -1,7 +1,7 @@
 """C15 --unchecked changes nothing on fault-free runs.  Decided by Refine.tla with the UNCHECKED image of each
 program: whenever the source-level run raises no fault, the unchecked image must have HiDSem's observable (the
 checked image is held to the same observable by C01/C02, so the two builds agree)."""
-import time
+import time, zlib
 from hv import rt, fam_tt, families, runner
 
 PROP = 'C15'
@@ -20,6 +20,7 @@ def main(tier, seed):
     base += families.examples(s=120, names={'hello', 'max', 'factor', 'optional_max'})
     from hv import fam_seq
     base += [it for it in fam_seq.misc(seed, tier) if it.w in (2, 3)]
+    base += fam_seq.eval_order(seed, tier)       # the checked build snapshots operands around its checks: the unchecked one must too
     for w in ([3] if quick else [3, 4, 8]):
         base += families.generated(seed + w, 10 if quick else 60, w=w, inputs=2, family='gen_w%d' % w)
     # stack overflow is undefined behaviour in an unchecked build too: keep only cases whose CHECKED image runs
@@ -38,7 +39,7 @@ def main(tier, seed):
     for it in base:
         items.append(runner.Item(it.key + ('unchecked',), it.src, it.args, w=it.w, s=it.s, unchecked=True,
                                  meta=dict(it.meta, family=it.meta['family'] + ':unchecked')))
-        if quick and hash(it.key) % 5:
+        if quick and zlib.crc32(repr(it.key).encode()) % 5:
             continue
         items.append(it)     # the checked image too: both builds are then held to the same observable
 
